@@ -7,9 +7,9 @@ From Zap Require Import C09.Sem.
 
 (* a location / lock / once / channel of a program: (object instance, identifier of the
    summary table) *)
-Definition ref := (nat * nat)%type.
-Definition eqb2 (a b : ref) : bool := Nat.eqb (fst a) (fst b) && Nat.eqb (snd a) (snd b).
-Definition inst (i : nat) (u : code nat) : code ref := cmap (pair i) u.
+Definition oref := (nat * nat)%type.
+Definition eqb2 (a b : oref) : bool := Nat.eqb (fst a) (fst b) && Nat.eqb (snd a) (snd b).
+Definition inst (i : nat) (u : code nat) : code oref := cmap (pair i) u.
 
 Fixpoint lookup (t : list (nat * nat)) (x : nat) : nat :=
   match t with
@@ -19,7 +19,7 @@ Fixpoint lookup (t : list (nat * nat)) (x : nat) : nat :=
 
 (* one call: a summary executed on an object instance *)
 Definition call := (nat * code nat)%type.
-Definition thread_of (cs : list call) : code ref := cconcat (map (fun c => inst (fst c) (snd c)) cs).
+Definition thread_of (cs : list call) : code oref := cconcat (map (fun c => inst (fst c) (snd c)) cs).
 
 Section Table.
 Variable U : list (code nat).          (* the summaries *)
@@ -46,9 +46,9 @@ Definition deadlock_ok : bool := units_pure && all_units (dl Nat.eqb rk rk []).
 (* programs: any number of threads, each any sequence of calls of summaries of the
    table on any object instances *)
 Definition calls_ok (cs : list call) : Prop := forall c, In c cs -> In (snd c) U.
-Definition from_facts (prog : list (code ref)) : Prop :=
+Definition from_facts (prog : list (code oref)) : Prop :=
   forall k, In k prog -> exists cs, calls_ok cs /\ k = thread_of cs.
 
 End Table.
 
-Definition rk2 (rk : nat -> nat) (r : ref) : nat := rk (snd r).
+Definition rk2 (rk : nat -> nat) (r : oref) : nat := rk (snd r).
